@@ -816,13 +816,15 @@ class Explorer:
             except Exception:
                 self.model = None
 
-    def check(self, *extra):
+    def check(self, *extra, optional=False):
+        """`optional`: a best-effort query under a short time limit (grid / dyadic models); `unknown` is then simply 'no model',
+        never retried with the long limit (a retried mixed-integer grid query once cost 80 s each and stalled whole runs)."""
         if self.deadline is not None and time.time() > self.deadline:
             self.timed_out = True
             raise Abort("deadline")
         t = time.time()
         r = self.solver.check(*extra)
-        if str(r) == "unknown":
+        if str(r) == "unknown" and not optional:
             # a query that ran into the per-query time limit (machine load) is retried with four times the limit and, if z3 still
             # gives up, handed to cvc5; only then does it count as `unknown` (inconclusive, never a verdict)
             self.retries = getattr(self, "retries", 0) + 1
@@ -1103,7 +1105,7 @@ class SymCtx:
             ex.solver.set("timeout", timeout_ms)
             for c in self._grid_constraints(scale):
                 ex.solver.add(c)
-            if str(ex.check()) == "sat":
+            if str(ex.check(optional=True)) == "sat":
                 m = ex.solver.model()
         finally:
             ex.solver.pop()
@@ -1125,7 +1127,7 @@ class SymCtx:
             ex.solver.set("timeout", 3000)
             for c in list(extra) + self._grid_constraints(self.grid_scale):
                 ex.solver.add(c)
-            r2 = str(ex.check())
+            r2 = str(ex.check(optional=True))
             if r2 == "sat":
                 m = ex.solver.model()
         finally:
